@@ -1,6 +1,6 @@
 (* C09 — Tag selection with inheritance selects exactly the matching scenarios.
    The tag expression is abstract: any function list nat -> bool (config.tag_expression.check). *)
-From BV Require Import Base Status Rollup Runner RunnerSteps RunnerQuiet RunnerSelect RunnerEq.
+From BV Require Import Base Status Rollup Runner RunnerSteps RunnerQuiet RunnerSelect RunnerEq RunnerSelectMore.
 From BVGen Require Import StatusTable.
 
 (* a de-selected scenario: no hook, no step call; skipped with all steps skipped
@@ -47,6 +47,35 @@ Theorem rule_without_selected_scenario_is_skipped :
       rr_status res = skipped /\ rr_hook_failed res = false /\ allq ev = true.
 Proof. exact unselected_rule_is_skipped. Qed.
 Print Assumptions rule_without_selected_scenario_is_skipped.
+
+(* the same for a feature (its rules included) *)
+Theorem feature_without_selected_scenario_is_skipped :
+  forall cfg st f,
+    aborted st = false ->
+    feature_should_run cfg f = false ->
+    forallb (fitem_nonempty (opt_steps (f_bg f))) (f_items f) = true ->
+    exists res ev, run_feature cfg st f = (st, res, false, ev) /\
+      fr_status res = skipped /\ fr_hook_failed res = false /\ allq ev = true.
+Proof. exact unselected_feature_is_skipped. Qed.
+Print Assumptions feature_without_selected_scenario_is_skipped.
+
+(* conversely a rule or feature ends skipped ONLY if everything in it is skipped: one that
+   contains a scenario that passed or failed (or anything else not skipped) does not *)
+Theorem a_skipped_rule_contains_only_skipped_elements :
+  forall cfg st r anc inh fhb st' res fld ev,
+    run_rule cfg st r anc inh fhb = (st', res, fld, ev) ->
+    rr_status res = skipped ->
+    forallb (fun x => status_eqb (item_status x) skipped) (rr_items res) = true.
+Proof. exact skipped_rule_contains_only_skipped_elements. Qed.
+Print Assumptions a_skipped_rule_contains_only_skipped_elements.
+
+Theorem a_skipped_feature_contains_only_skipped_elements :
+  forall cfg st f st' res fld ev,
+    run_feature cfg st f = (st', res, fld, ev) ->
+    fr_status res = skipped ->
+    forallb (fun x => status_eqb (fitem_status x) skipped) (fr_items res) = true.
+Proof. exact skipped_feature_contains_only_skipped_elements. Qed.
+Print Assumptions a_skipped_feature_contains_only_skipped_elements.
 
 (* effective tags: what the model hands to the expression for a row of an outline inside a rule *)
 Example effective_tags_inherit :
